@@ -124,3 +124,13 @@ VARIANTS += [
  V("c12-e1-rotation-drops-wal-close-error", "C12", "C10.E1", "db.go",
    "	offset, err := d.mu.log.writer.Close()\n	if err != nil {", "	offset, _ := d.mu.log.writer.Close()\n	var err error\n	if err != nil {"),
 ]
+VARIANTS += [
+ V("c34-o1-value-stored-only-for-parked-waiters", "C34", "C34.O1", "internal/cache/read_shard.go",
+   "	e.mu.v = v\n	if !e.mu.isReading {\n		panic(errors.AssertionFailedf(\"isReading is false\"))\n	}\n	e.mu.isReading = false\n	if e.mu.ch != nil {", "	if !e.mu.isReading {\n		panic(errors.AssertionFailedf(\"isReading is false\"))\n	}\n	e.mu.isReading = false\n	if e.mu.ch != nil {\n		e.mu.v = v"),
+]
+VARIANTS += [
+ V("c30-o2-help-without-rereading-forward-pointer", "C30", "C30.O2", "internal/arenaskl/skl.go",
+   "				prevNextOffset := prev.nextOffset(i)\n				if prevNextOffset == nextOffset {", "				prevNextOffset := prev.nextOffset(i)\n				if prevNextOffset == nextOffset || invalidateSplice {"),
+ V("c04-w2-clone-refreshes-the-source", "C04", "C04.W2", "iterator.go",
+   "			dbi.batch.batchSeqNum = (base.SeqNum(len(i.batch.batch.data)) | base.SeqNumBatchBit)", "			i.batch.batchSeqNum = (base.SeqNum(len(i.batch.batch.data)) | base.SeqNumBatchBit)\n			dbi.batch.batchSeqNum = i.batch.batchSeqNum"),
+]
